@@ -24,6 +24,35 @@
 //!  * recovery.fold: every WalEntry sequence of length <= 4 / <= 5 over an 11-symbol alphabet (precondition:
 //!    the writer's one-open-transaction protocol); the well-formed sequences <= 4 that contain a TxCommit are
 //!    also run end to end (TensorWal::append on a real file, TensorStore::recover).
+//!  * rotation.then_checkpoint / rotation.no_checkpoint (quick and thorough): a log whose size limit
+//!    (`max_size_bytes`, auto_rotate on) forces `TensorWal::rotate` after a few records.  Steps: ops over
+//!    {put a v1, put a v2, del a, put b v1} and CKPT (a completed `checkpoint`).  Shapes:
+//!    (a) rotation, more writes, checkpoint, more writes: filler [put a v2, put b v2]; s1; CKPT; s2 with max = size
+//!        of the filler's log, so the next append (s1's first record, or the checkpoint marker when s1 = []) rotates;
+//!        quick: s1 in {all |s1| <= 1, [0,2], [1,3], [2,0], [3,1]}, |s2| <= 1, and s1 = [put a v1] with all |s2| = 2;
+//!        thorough: all |s1| <= 2, |s2| <= 2;
+//!    (b) rotation without any checkpoint: s0; s1 with max = size of s0's log; quick: s0 in {[put a v2], filler},
+//!        |s1| = 1; thorough: s0 in {[put a v1], [put a v2], filler}, 1 <= |s1| <= 2;
+//!    (c) checkpoint followed by rotation: s0; CKPT; x; y with max = size of x's record (y rotates), all x, y;
+//!        quick: s0 = [put a v1]; thorough: s0 in {[], [put a v1], [put a v2, put b v1]}; and the same followed by a
+//!        second checkpoint and z: [put a v1]; CKPT; x; y; CKPT; z, quick: z in {[], [put a v1], [del a]},
+//!        thorough: all |z| <= 1.
+//!    Crash = every byte cut of the final log file (prefix-closed: cuts behind the last-but-one op of the current
+//!    file) and the uncut file, the rotated files .1/.2 copied next to it; plus, for every rotation the real
+//!    store performed, the step boundary inside `rotate` "old log renamed to .1, new log not yet created".
+//!    Recovery from the latest snapshot (if a checkpoint completed) + log with the same WalConfig.  Clause (both
+//!    ids): the recovered view is the state after p ops for some p >= number of acknowledged ops.  A case is
+//!    filed under then_checkpoint when every op acknowledged after the last completed checkpoint sits in the
+//!    current log file, under no_checkpoint when a rotation moved acknowledged, not yet checkpointed ops into a
+//!    rotated file (`recover` reads only the current file: these cases FAIL on the current tree).
+//!  * values.embedding_overwrite (quick and thorough): universe "embx" = keys {k:a (metadata class), emb:a
+//!    (embedding class)} x {put P (no `_embedding` field), put E (with a Vector under `_embedding`), delete}:
+//!    quick: per key every script of length <= 2 and the scripts E;del;P / E;P;E / P;E;P, thorough: every script
+//!    of length <= 3 over both keys, x every byte cut (prefix-closed):
+//!    recovered view = state after p >= acknowledged ops (so each key holds its LAST acknowledged value); then
+//!    one more acknowledged plain put and a crash-free reopen.  Crash chains: round 1 = put E on either key cut
+//!    at every byte of its record group, round 2 = put P on the same key cut at len-1 / len (thorough: put P on
+//!    either key or delete, cuts {0,4,8,9,len-1,len}), then two crash-free reopens.
 use crate::fw::{no_panic, Report, Tier};
 use serde_json::{json, Value};
 use std::collections::{BTreeMap, BTreeSet};
@@ -39,13 +68,20 @@ const OB_PUT: &str = "C02.put.log_before_apply";
 const OB_CKPT: &str = "C02.checkpoint.steps";
 const OB_FOLD: &str = "C02.recovery.fold";
 const OB_FOLD_PARTS: &str = "C02.recovery.fold.parts";
+const OB_ROTCK: &str = "C02.rotation.then_checkpoint";
+const OB_ROTNC: &str = "C02.rotation.no_checkpoint";
+const OB_EMBX: &str = "C02.values.embedding_overwrite";
 
 #[derive(Clone, Copy, PartialEq)]
 struct Uni { id: &'static str, keys: [&'static str; 3] }
 const META: Uni = Uni { id: "meta", keys: ["k:a", "k:b", "_cache:c"] };
 const EMB: Uni = Uni { id: "emb", keys: ["emb:a", "emb:b", "_cache:c"] };
+/// one metadata-class and one embedding-class key; kind 0 = plain value, kind 1 = value with an `_embedding` field
+const EMBX: Uni = Uni { id: "embx", keys: ["k:a", "emb:a", "_cache:c"] };
 
-fn uni_of(v: &Value) -> Uni { if v.get("uni").and_then(Value::as_str) == Some("emb") { EMB } else { META } }
+fn uni_of(v: &Value) -> Uni {
+    match v.get("uni").and_then(Value::as_str) { Some("emb") => EMB, Some("embx") => EMBX, _ => META }
+}
 
 fn value(uni: Uni, n: i64) -> TensorData {
     let mut d = TensorData::new();
@@ -55,7 +91,7 @@ fn value(uni: Uni, n: i64) -> TensorData {
         d.set("f", TensorValue::Scalar(ScalarValue::Float(2.5)));
         d.set("b", TensorValue::Scalar(ScalarValue::Bytes(vec![0, 255, 7])));
         d.set("p", TensorValue::Pointer("k:a".into()));
-        if uni == EMB { d.set("_embedding", TensorValue::Vector(vec![1.0, 0.0, 2.0])); }
+        if uni == EMB || uni == EMBX { d.set("_embedding", TensorValue::Vector(vec![1.0, 0.0, 2.0])); }
     }
     d
 }
@@ -381,6 +417,152 @@ fn eval_ckpt(dir: &Path, uni: Uni, s1: &[u8], s2: &[u8]) -> Vec<Out> {
     o
 }
 
+// ---------- log rotation ----------
+
+/// step code of a completed checkpoint inside a rotation script (op codes 0..=5 are the durable-key ops)
+const CKPT: u8 = 9;
+
+fn rot_cfg(max: u64) -> WalConfig { let mut c = cfg(); c.max_size_bytes = max; c.auto_rotate = true; c }
+
+fn inode(p: &Path) -> u64 { use std::os::unix::fs::MetadataExt; std::fs::metadata(p).map(|m| m.ino()).unwrap_or(0) }
+
+fn rotated(p: &Path, n: usize) -> PathBuf { PathBuf::from(format!("{}.{n}", p.display())) }
+
+/// what the real store left on disk after a rotation script, and the ghost bookkeeping
+struct RotRun {
+    max: u64,
+    log: Vec<u8>,
+    has_snap: bool,
+    /// model state after 0..=n ops (checkpoints are not ops)
+    states: Vec<Model>,
+    /// ops acknowledged before the first record of the current log file
+    before_seg: usize,
+    /// end offsets (in the current log file) of the ops whose record is in it
+    seg_ends: Vec<usize>,
+    rotations: usize,
+    /// a rotation moved acknowledged ops that no completed checkpoint covers into a rotated file
+    uncovered_rotated: bool,
+    /// ops covered by the last completed checkpoint
+    covered: usize,
+    /// one check per rotation the real store performed: the step boundary inside `rotate` where the old log
+    /// is already renamed to .1 and the new log file does not exist yet
+    boundary: Vec<(usize, Out)>,
+    /// the op codes (checkpoints left out) and their universe, for `skipping_rotated`
+    ops: Vec<u8>,
+    uni: Uni,
+}
+
+/// diagnosis attached to a failure: is the recovered view exactly "snapshot + the records of the current log file",
+/// i.e. what a recovery that never opens the rotated files produces?  (`upto` = ops whose record is in the cut log)
+fn skipping_rotated(r: &RotRun, covered: usize, from: usize, lo: usize, hi: usize, got: &Result<Model, String>) -> &'static str {
+    let Ok(g) = got else { return "" };
+    for q in lo..=hi {
+        let mut m = r.states[covered].clone();
+        for &c in &r.ops[from.min(q)..q] { model_apply(r.uni, &mut m, c); }
+        if &m == g { return " [= snapshot + current log file only: the rotated file(s) were not replayed]"; }
+    }
+    ""
+}
+
+/// crash inside the rotation the store has just performed (files taken as the real rotate left them: .1 = the
+/// old log, .2 = the older one, current log absent); every op acknowledged before must be recovered.
+/// `covered` = ops contained in the snapshot that is on disk at that moment (`snap_now`: there is one).
+fn rot_boundary(dir: &Path, r: &RotRun, step: usize, covered: usize, snap_now: bool) -> Out {
+    let l = dir.join("rot.wal");
+    let snap = dir.join("rot.snap");
+    let c = dir.join("rotc.wal");
+    for f in [c.clone(), rotated(&c, 1), rotated(&c, 2), rotated(&c, 3)] { let _ = std::fs::remove_file(f); }
+    for k in 1..=2 { if rotated(&l, k).exists() { std::fs::copy(rotated(&l, k), rotated(&c, k)).expect("copy rotated"); } }
+    let n = r.states.len() - 1;
+    let ob = if n > covered || r.uncovered_rotated { OB_ROTNC } else { OB_ROTCK };
+    let got = TensorStore::recover(&c, &rot_cfg(r.max), if snap_now { Some(snap.as_path()) } else { None }).map_err(|e| format!("recover fails: {e}")).and_then(|s| view(&s));
+    let ok = got.as_ref() == Ok(&r.states[n]);
+    let why = if ok { "" } else { skipping_rotated(r, covered, n, n, n, &got) };
+    out(ob, ok, format!("crash inside the rotate of step {step}: old log renamed to .1, new log not yet created (max_size_bytes {}, {covered} of {n} acknowledged ops in the snapshot on disk): recovered {} expected the state after {n} ops {}{why}",
+        r.max, got.as_ref().map(show).unwrap_or_else(|e| e.clone()), show(&r.states[n])))
+}
+
+fn run_rot(dir: &Path, uni: Uni, script: &[u8], max: u64) -> Result<RotRun, String> {
+    let l = dir.join("rot.wal");
+    let snap = dir.join("rot.snap");
+    for f in [l.clone(), rotated(&l, 1), rotated(&l, 2), rotated(&l, 3), snap.clone()] { let _ = std::fs::remove_file(f); }
+    let st = TensorStore::open_durable(&l, rot_cfg(max)).map_err(|e| format!("open_durable: {e}"))?;
+    let mut m = Model::new();
+    let mut r = RotRun { max, log: vec![], has_snap: false, states: vec![m.clone()], before_seg: 0, seg_ends: vec![], rotations: 0, uncovered_rotated: false, covered: 0, boundary: vec![], ops: vec![], uni };
+    let mut ino = inode(&l);
+    let mut done = 0usize;
+    for (i, &c) in script.iter().enumerate() {
+        if c == CKPT {
+            st.checkpoint(&snap).map_err(|e| format!("step {i}: checkpoint fails: {e}"))?;
+            let now = inode(&l);
+            if now != ino {
+                // the checkpoint marker rotated the log (the new snapshot is already on disk)
+                r.rotations += 1;
+                ino = now;
+                r.uncovered_rotated = false;
+                let b = rot_boundary(dir, &r, i, done, true);
+                r.boundary.push((i, b));
+            }
+            let flen = std::fs::metadata(&l).map_err(|e| e.to_string())?.len();
+            if flen != 0 { return Err(format!("step {i}: log has {flen} bytes after a completed checkpoint, expected 0")); }
+            r.has_snap = true;
+            r.covered = done;
+            r.uncovered_rotated = false;
+            r.before_seg = done;
+            r.seg_ends.clear();
+            continue;
+        }
+        let res = real_apply(uni, &st, c);
+        if c % 3 != 2 { res.map_err(|e| format!("step {i}: put_durable not acknowledged although auto_rotate is on: {e}"))?; }
+        let now = inode(&l);
+        if now != ino {
+            // the append of this op rotated the log: everything acknowledged so far now sits in a rotated file
+            r.rotations += 1;
+            ino = now;
+            let b = rot_boundary(dir, &r, i, r.covered, r.has_snap);
+            r.boundary.push((i, b));
+            if done > r.covered { r.uncovered_rotated = true; }
+            r.before_seg = done;
+            r.seg_ends.clear();
+        }
+        done += 1;
+        model_apply(uni, &mut m, c);
+        r.ops.push(c);
+        r.states.push(m.clone());
+        r.seg_ends.push(std::fs::metadata(&l).map_err(|e| e.to_string())?.len() as usize);
+    }
+    // the live store shows the model state
+    let live = view(&st);
+    if live.as_ref() != Ok(&m) { return Err(format!("live store shows {} expected {}", live.as_ref().map(show).unwrap_or_else(|e| e.clone()), show(&m))); }
+    drop(st);
+    r.log = std::fs::read(&l).map_err(|e| e.to_string())?;
+    if r.log.len() != r.seg_ends.last().copied().unwrap_or(0) { return Err("log length changed on drop".into()); }
+    Ok(r)
+}
+
+/// first cut that is not already the case (prefix script, same cut)
+fn rot_lo(r: &RotRun) -> usize { if r.seg_ends.len() >= 2 { r.seg_ends[r.seg_ends.len() - 2] + 1 } else { 0 } }
+
+/// crash with the current log cut at `cut`, the rotated files as they are; recover from the latest snapshot (if
+/// a checkpoint completed) + log
+fn eval_rot_cut(dir: &Path, r: &RotRun, cut: usize) -> Option<Out> {
+    if r.rotations == 0 { return None; } // precondition of the family: the script made the log rotate
+    let l = dir.join("rot.wal");
+    let snap = dir.join("rot.snap");
+    let c = dir.join("rotc.wal");
+    for f in [c.clone(), rotated(&c, 1), rotated(&c, 2), rotated(&c, 3)] { let _ = std::fs::remove_file(f); }
+    let n = r.states.len() - 1;
+    std::fs::write(&c, &r.log[..cut]).expect("write copy");
+    for k in 1..=2 { if rotated(&l, k).exists() { std::fs::copy(rotated(&l, k), rotated(&c, k)).expect("copy rotated"); } }
+    let acked = r.before_seg + r.seg_ends.iter().filter(|&&e| e <= cut).count();
+    let ob = if r.uncovered_rotated { OB_ROTNC } else { OB_ROTCK };
+    let got = TensorStore::recover(&c, &rot_cfg(r.max), if r.has_snap { Some(snap.as_path()) } else { None }).map_err(|e| format!("recover fails: {e}")).and_then(|s| view(&s));
+    let ok = matches!(&got, Ok(g) if r.states[acked..].iter().any(|s| s == g));
+    let why = if ok { "" } else { skipping_rotated(r, r.covered, r.before_seg, acked, n, &got) };
+    Some(out(ob, ok, format!("cut {cut}/{} of the current log (max_size_bytes {}, {} rotation(s), {} of {n} ops covered by a checkpoint): recovered {} ; acknowledged = {acked} ops, expected one of the states after {acked}..={n} ops, e.g. {}{why}",
+        r.log.len(), r.max, r.rotations, r.covered, got.as_ref().map(show).unwrap_or_else(|e| e.clone()), show(&r.states[acked]))))
+}
+
 // ---------- recovery fold ----------
 
 /// alphabet: 0 set k0, 1 set k1, 2 del k0, 3 del k1, 4/5/6 begin/commit/abort tx 1, 7/8/9 begin/commit/abort tx 2, 10 checkpoint
@@ -523,6 +705,11 @@ fn scripts(nsyms: u8, maxlen: usize) -> Vec<Vec<u8>> {
     all
 }
 
+/// the embx universe reports the recovered-view and later-writes checks under its own obligation id
+fn embx_outs(outs: Vec<Out>) -> Vec<Out> {
+    outs.into_iter().map(|x| if x.ob == OB_PREFIX || x.ob == OB_VIS { out(OB_EMBX, x.ok, x.detail) } else { x }).collect()
+}
+
 fn record(rep: &mut Report, outs: Vec<Out>, case: &dyn Fn() -> Value) {
     for x in outs { rep.check(x.ob, x.ok, case, &|| x.detail.clone()); }
 }
@@ -535,14 +722,21 @@ pub fn run(tier: Tier, _seed: u64) -> Report {
                   (prefix-closed enumeration: per script the cuts behind the end of the last-but-one op are executed, earlier cuts are the cases of its prefixes); \
                   put: all scripts <= 3 over 3 keys (2 durable, 1 cache-class) x 3 kinds, plus log-full variants; \
                   checkpoint: {}, on-disk states before/A/B(+every marker cut)/C/C+writes(+every cut)/second checkpoint; \
-                  fold: all WalEntry sequences of length <= {} over 11 symbols, well-formed ones with a commit (<= 4) also end to end through files{}",
+                  fold: all WalEntry sequences of length <= {} over 11 symbols, well-formed ones with a commit (<= 4) also end to end through files{}; \
+                  rotation (max_size_bytes reached after a few records, auto_rotate on): filler; s1; CKPT; s2 / s0; s1 without checkpoint / s0; CKPT; x; y(rotates)[; CKPT; z] over 4 ops, \
+                  {}, x every byte cut of the final log (prefix-closed) + the renamed-not-yet-created boundary of every rotation performed; \
+                  embedding overwrite: keys {{k:a, emb:a}} x {{put plain, put with _embedding, delete}}, {} x every byte cut, then one more plain put and a reopen; \
+                  2-round chains (put with _embedding torn at every byte, then a plain write, {})",
                  if thorough { " (and all scripts <= 3 over 2 embedding-class keys)" } else { "" },
                  if thorough { "all (s1,s2) over 6 ops with |s1|<=2,|s2|<=1 or |s1|<=1,|s2|=2 (+ emb universe over 4 ops)" } else { "all (s1,s2) over 4 ops with |s1|<=2,|s2|<=1" },
                  if thorough { 5 } else { 4 },
-                 if thorough { "; crash chains: all 2-round chains (1 of 3 ops per round, every byte cut) and all 3-round chains (1 of 3 ops per round, cuts {0,4,8,9,len-1,len})" } else { "" }),
+                 if thorough { "; crash chains: all 2-round chains (1 of 3 ops per round, every byte cut) and all 3-round chains (1 of 3 ops per round, cuts {0,4,8,9,len-1,len})" } else { "" },
+                 if thorough { "all |s1|<=2,|s2|<=2; 3 s0 x 1<=|s1|<=2; 3 s0 x all x,y; all |z|<=1" } else { "9 s1 x |s2|<=1 and s1=[put a v1] x |s2|=2; 2 s0 x |s1|=1; s0=[put a v1] x all x,y; 3 z" },
+                 if thorough { "all scripts <= 3" } else { "per key all scripts <= 2 and E;del;P / E;P;E / P;E;P" },
+                 if thorough { "3 plain ops x cuts {0,4,8,9,len-1,len}" } else { "put plain on the same key cut at len-1 / len" }),
         true,
         &["TensorStore::open_durable", "TensorStore::recover", "TensorStore::put_durable", "TensorStore::delete_durable", "TensorStore::checkpoint",
-          "SlabRouter::recover", "SlabRouter::checkpoint", "SlabRouter::save_to_file", "TensorWal::open", "TensorWal::append", "TensorWal::replay", "WalRecovery::from_entries", "WalRecovery::all_operations"]);
+          "SlabRouter::recover", "SlabRouter::checkpoint", "SlabRouter::save_to_file", "TensorWal::open", "TensorWal::append", "TensorWal::replay", "TensorWal::rotate", "TensorWal::truncate", "WalRecovery::from_entries", "WalRecovery::all_operations"]);
     rep.declare(OB_PREFIX, "SlabRouter::recover over TensorStore::recover");
     rep.declare(OB_WF, "TensorWal::open");
     rep.declare(OB_VIS, "TensorWal::open; append; replay (via recover; put_durable; recover)");
@@ -550,6 +744,9 @@ pub fn run(tier: Tier, _seed: u64) -> Report {
     rep.declare(OB_CKPT, "SlabRouter::checkpoint");
     rep.declare(OB_FOLD, "WalRecovery::from_entries + all_operations");
     rep.declare(OB_FOLD_PARTS, "WalRecovery::from_entries");
+    rep.declare(OB_ROTCK, "TensorWal::rotate; SlabRouter::checkpoint; SlabRouter::recover");
+    rep.declare(OB_ROTNC, "TensorWal::rotate; SlabRouter::recover");
+    rep.declare(OB_EMBX, "SlabRouter::put_durable / delete_durable; SlabRouter::recover");
     let dir = crate::fw::tmpdir("c02_durable");
 
     // replay.prefix / open.wf / append.visible
@@ -571,6 +768,105 @@ pub fn run(tier: Tier, _seed: u64) -> Report {
                 record(&mut rep, outs, &|| json!({"uni": uni.id, "script": sc, "cut": cut}));
             }
             if script == [0u8, 4] { rep.sample(json!({"uni": uni.id, "script": script, "cut": w.bytes.len() - 1})); }
+        }
+    }
+
+    // values.embedding_overwrite: plain values and values with an `_embedding` field overwrite each other
+    {
+        let uni = EMBX;
+        // quick: per key every script <= 2 over {put P, put E, del} and the scripts E;del;P / E;P;E / P;E;P;
+        // thorough: every script <= 3 over both keys
+        let mut all = if thorough { scripts(6, 3) } else { vec![vec![]] };
+        if !thorough { for key in 0..2u8 {
+            for s in scripts(3, 2) { if !s.is_empty() { all.push(s.iter().map(|k| key * 3 + k).collect()); } }
+            for s in [[1u8, 2, 0], [1, 0, 1], [0, 1, 0]] { all.push(s.iter().map(|k| key * 3 + k).collect()); }
+        } }
+        for script in all {
+            let w = match write_script(&dir, uni, &script) {
+                Ok(w) => w,
+                Err(e) => { rep.check(OB_EMBX, false, &|| json!({"uni": uni.id, "script": script, "cut": 0}), &|| e.clone()); continue; },
+            };
+            let bounds = record_ends(&w.bytes);
+            let lo = if script.len() <= 1 { 0 } else { w.op_ends[script.len() - 2] + 1 };
+            for cut in lo..=w.bytes.len() {
+                rep.eval(cut != 0 && !bounds.contains(&cut));
+                let outs = embx_outs(eval_cut(&dir, uni, &w, cut));
+                let sc = &script;
+                record(&mut rep, outs, &|| json!({"uni": uni.id, "script": sc, "cut": cut}));
+            }
+        }
+        // crash chains: round 1 = put E (value with `_embedding`) torn at every byte of its record group,
+        // round 2 = a plain write (quick: put P on the same key, cut len-1 / len; thorough: put P on either key or
+        // delete, cuts {0,4,8,9,len-1,len}), then two crash-free reopens
+        for e_op in [1u8, 4] {
+            let glen = write_script(&dir, uni, &[e_op]).map(|w| w.bytes.len()).unwrap_or(0);
+            let p_ops = if thorough { vec![e_op - 1, e_op + 1, 4 - e_op] } else { vec![e_op - 1] };
+            for p_op in p_ops {
+                let plen = write_script(&dir, uni, &[e_op, p_op]).map(|w| w.bytes.len() - glen).unwrap_or(0);
+                let mut cls = if thorough { vec![0, 4, 8, 9, plen - 1, plen] } else { vec![plen - 1, plen] };
+                cls.sort_unstable(); cls.dedup();
+                for c1 in 0..=glen { for &c2 in &cls {
+                    let rounds = vec![(vec![e_op], c1), (vec![p_op], c2)];
+                    rep.eval(true);
+                    let x = eval_rounds(&dir, uni, &rounds);
+                    record(&mut rep, embx_outs(vec![x]), &|| json!({"uni": "embx", "rounds": rounds.iter().map(|(s, c)| json!({"script": s, "cut": c})).collect::<Vec<_>>()}));
+                } }
+            }
+        }
+    }
+
+    // log rotation
+    let rot_sample_max;
+    {
+        let uni = META;
+        let size = |s: &[u8]| write_script(&dir, uni, s).map(|w| w.bytes.len() as u64).unwrap_or(0);
+        let filler = vec![1u8, 4];
+        let fmax = size(&filler);
+        rot_sample_max = fmax;
+        let mut cases: Vec<(Vec<u8>, u64)> = vec![];
+        // (a) rotation, more writes into the new file, a completed checkpoint, more acknowledged writes:
+        //     filler; s1; CKPT; s2 with max = size of the filler's log (the next append, s1's first record or the
+        //     checkpoint marker, rotates)
+        let s1s: Vec<Vec<u8>> = if thorough { scripts(4, 2) } else { let mut v = scripts(4, 1); v.extend([vec![0u8, 2], vec![1, 3], vec![2, 0], vec![3, 1]]); v };
+        for s1 in &s1s { for s2 in scripts(4, 2) {
+            if !thorough && s2.len() == 2 && s1[..] != [0u8] { continue; }
+            let mut sc = filler.clone(); sc.extend(s1); sc.push(CKPT); sc.extend(&s2);
+            cases.push((sc, fmax));
+        } }
+        // (b) rotation without any checkpoint: s0; s1 with max = size of s0's log
+        let s0s: Vec<(Vec<u8>, usize)> = if thorough { vec![(vec![0u8], 2), (vec![1], 2), (filler.clone(), 2)] } else { vec![(vec![1u8], 1), (filler.clone(), 1)] };
+        for (s0, l1) in s0s { let m0 = size(&s0); for s1 in scripts(4, l1) {
+            if s1.is_empty() { continue; }
+            let mut sc = s0.clone(); sc.extend(&s1);
+            cases.push((sc, m0));
+        } }
+        // (c) checkpoint followed by rotation: s0; CKPT; x; y with max = size of x's record (y rotates); the same
+        //     followed by a second checkpoint and one more op
+        for x in 0..4u8 { let mx = size(&[x]); for y in 0..4u8 {
+            let s0s: Vec<Vec<u8>> = if thorough { vec![vec![], vec![0u8], vec![1, 3]] } else { vec![vec![0u8]] };
+            for s0 in s0s { let mut sc = s0.clone(); sc.push(CKPT); sc.push(x); sc.push(y); cases.push((sc, mx)); }
+            let zs: Vec<Vec<u8>> = if thorough { scripts(4, 1) } else { vec![vec![], vec![0u8], vec![2]] };
+            for z in zs { let mut sc = vec![0u8, CKPT, x, y, CKPT]; sc.extend(&z); cases.push((sc, mx)); }
+        } }
+        let mut seen_boundary: BTreeSet<(Vec<u8>, u64)> = BTreeSet::new();
+        for (script, max) in cases {
+            let r = match run_rot(&dir, uni, &script, max) {
+                Ok(r) => r,
+                Err(e) => { rep.check(OB_ROTCK, false, &|| json!({"uni": uni.id, "rot": script, "max": max, "cut": 0}), &|| e.clone()); continue; },
+            };
+            let sc = &script;
+            for cut in rot_lo(&r)..=r.log.len() {
+                let x = eval_rot_cut(&dir, &r, cut);
+                rep.eval(x.is_some() && cut != 0 && !r.seg_ends.contains(&cut));
+                record(&mut rep, x.into_iter().collect(), &|| json!({"uni": uni.id, "rot": sc, "max": max, "cut": cut}));
+            }
+            // the step boundary inside each rotation the store performed (case = the script up to the rotating step)
+            for (step, x) in &r.boundary {
+                let pre = script[..=*step].to_vec();
+                if !seen_boundary.insert((pre.clone(), max)) { continue; }
+                rep.eval(true);
+                record(&mut rep, vec![out(x.ob, x.ok, x.detail.clone())], &|| json!({"uni": uni.id, "rot": pre, "max": max, "cut": "renamed"}));
+            }
         }
     }
 
@@ -656,6 +952,8 @@ pub fn run(tier: Tier, _seed: u64) -> Report {
         }
     }
     rep.sample(json!({"fold": [4, 0, 5, 0]}));
+    rep.sample(json!({"uni": "meta", "rot": [1, 4, 0, 9, 1, 2], "max": rot_sample_max, "cut": 60}));
+    rep.sample(json!({"uni": "embx", "script": [4, 3], "cut": 150}));
 
     let _ = std::fs::remove_dir_all(&dir);
     rep
@@ -669,6 +967,15 @@ pub fn replay(ob: &str, case: &Value) -> Result<String, String> {
     let outs: Vec<Out> = if let Some(f) = case.get("fold") {
         let syms = bytes_of(f);
         if case.get("e2e").and_then(Value::as_bool) == Some(true) { eval_fold_e2e(&dir, &syms).into_iter().collect() } else { eval_fold(&syms).1 }
+    } else if let Some(r) = case.get("rot") {
+        let max = case["max"].as_u64().unwrap_or(0);
+        match run_rot(&dir, uni, &bytes_of(r), max) {
+            Err(e) => vec![out(OB_ROTCK, false, e)],
+            Ok(rr) => match case["cut"].as_u64() {
+                Some(c) => eval_rot_cut(&dir, &rr, (c as usize).min(rr.log.len())).into_iter().collect(),
+                None => rr.boundary.into_iter().map(|(_, x)| x).collect(),
+            },
+        }
     } else if let Some(r) = case.get("rounds") {
         let rounds: Vec<(Vec<u8>, usize)> = r.as_array().map(|a| a.iter().map(|x| (bytes_of(&x["script"]), x["cut"].as_u64().unwrap_or(0) as usize)).collect()).unwrap_or_default();
         vec![eval_rounds(&dir, uni, &rounds)]
@@ -684,6 +991,7 @@ pub fn replay(ob: &str, case: &Value) -> Result<String, String> {
             Ok(w) => { let cut = (case["cut"].as_u64().unwrap_or(0) as usize).min(w.bytes.len()); eval_cut(&dir, uni, &w, cut) },
         }
     };
+    let outs = if uni == EMBX { embx_outs(outs) } else { outs };
     let _ = std::fs::remove_dir_all(&dir);
     let mine: Vec<&Out> = outs.iter().filter(|x| x.ob == ob).collect();
     if mine.is_empty() { return Err(format!("case does not exercise {ob} (precondition false or earlier step failed: {})", outs.iter().filter(|x| !x.ok).map(|x| x.detail.clone()).collect::<Vec<_>>().join("; "))); }
